@@ -2,7 +2,7 @@
 """Detection-rate probe (not a check): applies a seeded change or nothing to a
 scratch worktree and reports in how many of N runs of an engine a violation is
 seen (no early stop, no shrinking). Usage:
-  tools/rate.py <engine> <lo> <hi> [seeded-id|-]
+  tools/rate.py <engine> <lo> <hi> [seeded-id|mut:<catalogue name>|-]
 """
 import os, sys, subprocess, time
 HERE = os.path.dirname(os.path.dirname(os.path.abspath(__file__)))
@@ -17,8 +17,12 @@ def main():
   scratch = None
   if sid != "-":
     scratch = selftest.make_scratch()
-    subprocess.run(["git", "-C", scratch, "apply",
-                    os.path.join(HERE, "seeded", sid, "patch.diff")], check=True)
+    if sid.startswith("mut:"):
+      m = [x for x in selftest.load_catalogue() if x["name"] == sid[4:]][0]
+      assert selftest.apply_mutant(scratch, m), "stale mutant"
+    else:
+      subprocess.run(["git", "-C", scratch, "apply",
+                      os.path.join(HERE, "seeded", sid, "patch.diff")], check=True)
     os.environ["VERIF_REPO"] = scratch
     os.environ["VERIF_BUILD_ROOT"] = os.path.join(scratch, ".verif-build")
   try:
